@@ -6,7 +6,9 @@ package tree
 //
 // fan-out 16 (the code as shipped). arguments: op, height, rootN (-1: symbolic/any), order, zeroAt
 //verif:case C01,C03 quick VerifTreeStep 0..3 1 -1 0..1 -1..0 @unwind=600
-//verif:case C01,C03 quick VerifTreeStep 0..3 2 1..2 0 -1..0 @unwind=600
+//verif:case C01,C03 quick VerifTreeStep 0..3 2 1 0 -1 @unwind=600
+//verif:case C01,C03 quick VerifTreeStep 0..1 2 2 0 0 @unwind=600
+//verif:case C01,C03 thorough VerifTreeStep 0..3 2 1..2 0 -1..0 @unwind=600
 //verif:case C01,C03 thorough VerifTreeStep 0..3 2 3 0 -1..1 @unwind=600
 //verif:case C01,C03 thorough VerifTreeStep 0..1 2 15 0 -1 @unwind=600
 //verif:case C01,C03 thorough VerifTreeStep 0..3 2 1..2 1 -1..1 @unwind=600
